@@ -129,3 +129,57 @@ Proof.
     + rewrite Vq, Vr. pose proof (Z.div_mod (uval u) (uval n) ltac:(lia)). lia.
     + rewrite Vr. apply Z.mod_pos_bound. lia.
 Qed.
+
+(* ---- the 64-bit-divisor variants: the same result as dividing by the 128-bit value of the word *)
+Theorem divgen64_spec {A} (sel : w128 -> w128 -> A) u n : wf u -> w64 n ->
+  (n = 0 -> divgen64 sel u n = DivZero) /\ (0 < n -> ok_result sel u (mk 0 n) (divgen64 sel u n)).
+Proof.
+  intros Wu Hn0. unfold w64 in Hn0. set (N := mk 0 n). assert (WN : wf N) by (unfold wf, N; cbn; lia). assert (VN : uval N = n) by (unfold N; rewrite uval_mk; lia).
+  pose proof (uval_range u Wu) as Ru. unfold divgen64. split; [intros ->; reflexivity|]. intro Hn. unfold ok_result. rewrite VN.
+  destruct (Z.eqb_spec n 0); [lia|]. destruct (Z.eqb_spec n 1) as [E1|E1].
+  - exists u, zero. split; [reflexivity|]. split; [exact Wu|]. split; [unfold wf, zero; cbn; lia|]. rewrite E1. unfold zero. rewrite uval_mk.
+    split; [rewrite Z.div_1_r; reflexivity|rewrite Z.mod_1_r; lia].
+  - destruct (Z.eqb_spec (hi u) 0) as [Hu0|Hu0].
+    + destruct Wu as [_ Wul]. assert (Eu : uval u = lo u) by (unfold uval; rewrite Hu0; lia).
+      pose proof (Z.mod_pos_bound (lo u) n ltac:(lia)). assert (0 <= lo u / n <= lo u) by (split; [apply Z.div_pos; lia|apply Z.div_le_upper_bound; nia]).
+      eexists _, _. split; [reflexivity|]. split; [unfold wf; cbn; lia|]. split; [unfold wf; cbn; lia|]. rewrite !uval_mk, Eu. split; lia.
+    + cbv zeta.
+      assert (ELZ : LeadingZeros N = lz64 n + 64) by reflexivity.
+      assert (ETZ : TrailingZeros N = tz64 n) by (unfold TrailingZeros, N; cbn [hi lo]; destruct (Z.eqb_spec n 0); [lia|reflexivity]).
+      destruct (Z.eqb_spec (lz64 n + 64 + tz64 n) 127) as [E|E].
+      * destruct (pow2_divisor u N Wu WN ltac:(lia) ltac:(rewrite ELZ, ETZ; exact E)) as (Wq & Wr & Vq & Vr). rewrite ETZ in Wq, Vq. rewrite VN in Vq, Vr.
+        assert (EA : And64 u (wrap (n - 1)) = And (Dec N) u).
+        { unfold And64, And, Dec, N, sub64. cbn [hi lo]. destruct (Z.ltb_spec (n - 1 - 0) 0); [lia|]. change (wrap (0 - 0)) with 0.
+          replace (n - 1 - 0) with (n - 1) by lia. rewrite Z.land_0_l. f_equal. apply Z.land_comm. }
+        rewrite EA. eexists _, _. split; [reflexivity|]. repeat split; assumption || apply Wq || apply Wr.
+      * assert (Hgt : n < uval u) by (destruct Wu as [[? ?] [? ?]]; unfold uval; nia).
+        rewrite (Cmp64_spec u n Wu ltac:(unfold w64; lia)). destruct (cmp3_cases (uval u) n) as [[C L]|[(C1 & C2 & L)|(C1 & C2 & L)]]; try lia.
+        rewrite C1, C2. destruct (16 <? lz64 n + 64 - LeadingZeros u).
+        -- (* the same calls as the small-divisor branch of the 128-bit kernel *)
+           pose proof (by128_small u N Wu WN eq_refl ltac:(unfold N; cbn; lia)) as (q & r & E2 & Wq & Wr & Vq & Vr). rewrite VN in Vq, Vr.
+           unfold divmod128by128, N in E2. cbn [hi lo Z.eqb] in E2.
+           destruct (hi u <? n).
+           ++ destruct (divmod128by64 u n (lz64 n)) as [[a b]|]; [|discriminate]. injection E2 as <- <-.
+              eexists _, _. split; [reflexivity|]. repeat split; assumption || apply Wq || apply Wr.
+           ++ destruct (divmod128by64 (mk (hi u mod n) (lo u)) n (lz64 n)) as [[a b]|]; [|discriminate]. injection E2 as <- <-.
+              eexists _, _. split; [reflexivity|]. repeat split; assumption || apply Wq || apply Wr.
+        -- pose proof (bin_result u N Wu WN ltac:(lia) ltac:(lia)) as (q & r & E2 & Wq & Wr & Vq & Vr). rewrite VN in Vq, Vr. rewrite ELZ in E2.
+           fold N. rewrite E2. exists q, r. split; [reflexivity|]. repeat split; assumption || apply Wq || apply Wr.
+Qed.
+
+Theorem DivMod64_spec u n : wf u -> w64 n ->
+  (n = 0 -> DivMod64 u n = DivZero /\ Div64 u n = DivZero /\ Mod64 u n = DivZero) /\
+  (0 < n -> exists q r, DivMod64 u n = Ok (q, r) /\ Div64 u n = Ok q /\ Mod64 u n = Ok r /\
+            wf q /\ wf r /\ uval q = uval u / n /\ uval r = uval u mod n /\ uval q * n + uval r = uval u /\ uval r < n).
+Proof.
+  intros Wu Wn. assert (VN : uval (mk 0 n) = n) by (rewrite uval_mk; lia). split.
+  - intro Z0. unfold DivMod64, Div64, Mod64. repeat split; apply divgen64_spec; assumption.
+  - intro Hn. unfold DivMod64, Div64, Mod64.
+    destruct (proj2 (divgen64_spec (fun q r => (q, r)) u n Wu Wn) Hn) as (q & r & E & Wq & Wr & Vq & Vr).
+    destruct (proj2 (divgen64_spec (fun q _ => q) u n Wu Wn) Hn) as (q1 & r1 & E1 & Wq1 & _ & Vq1 & _).
+    destruct (proj2 (divgen64_spec (fun _ r => r) u n Wu Wn) Hn) as (q2 & r2 & E2 & _ & Wr2 & _ & Vr2).
+    rewrite VN in *. assert (q1 = q) by (apply uval_inj; congruence). assert (r2 = r) by (apply uval_inj; congruence). subst.
+    exists q, r. repeat split; try assumption; try apply Wq; try apply Wr.
+    + rewrite Vq, Vr. pose proof (Z.div_mod (uval u) n ltac:(lia)). lia.
+    + rewrite Vr. apply Z.mod_pos_bound. lia.
+Qed.
